@@ -31,15 +31,134 @@ def nontrivial_default(inp, obs):
     return not (obs.startswith("ERR") or obs.startswith("PANIC"))
 
 
+def _kv(s):
+    return dict(t.split("=", 1) for t in s.split(" ") if "=" in t)
+
+
+def c12_component_ok(full, part):
+    """error-or-same: the partial view's result equals the full view's, or is an error;
+    iterator results may stop with an error after a correct prefix; a mutation result is
+    (root, serialization): the root must be the same, serializing may fail."""
+    if part == full or part == "ERR":
+        return True
+    if "PANIC" in part:
+        return False
+    if full.startswith("OK_") and part.startswith("OK_") and full.count("_") == 2 and part.count("_") == 2:
+        _, fr, fs = full.split("_")
+        _, pr, ps = part.split("_")
+        return fr == pr and (ps == fs or ps == "ERR")
+    ft, pt = full.split(","), part.split(",")
+    for k, x in enumerate(pt):
+        if x == "ERR":
+            continue
+        if k >= len(ft) or ft[k] != x:
+            return False
+    return True
+
+
+def extra_c12(inp, o, m):
+    d = _kv(o)
+    if d.get("summ") == "PANIC":
+        return "summarising panicked"
+    if d.get("summ") != "OK":
+        return None
+    if not c12_component_ok(d.get("full", ""), d.get("part", "")):
+        return "partial view answered %s where the full view answers %s" % (d.get("part", "")[:80], d.get("full", "")[:80])
+    dm = _kv(m)
+    if dm.get("summ") == "OK" and not c12_component_ok(dm.get("full", ""), dm.get("part", "")):
+        return "model: partial answer differs from full answer"
+    return None
+
+
+def extra_c20(inp, o, m):
+    d, dm = _kv(o), _kv(m)
+    try:
+        ga, fa = int(d["alloc"], 16), int(d["falloc"], 16)
+        ma, b = int(dm["malloc"], 16), int(dm["bound"], 16)
+    except (KeyError, ValueError):
+        return "unparsable allocation figures"
+    if ma > b:
+        return "model allocation %d exceeds the proved bound %d" % (ma, b)
+    if ga > 4 * ma + 16384:
+        return "view decoder allocated %d bytes, model charges %d (limit 4x + 16KiB)" % (ga, ma)
+    if fa > 4 * b + 16384:
+        return "flat decoder allocated %d bytes, bound for this input is %d (limit 4x + 16KiB)" % (fa, b)
+    return None
+
+
+def extra_c13(inp, o, m):
+    # a short or failing stream must never produce a value
+    f = inp.split("\t")
+    if f[0] == "c13r" and f[-1] != "full" and o.startswith("OK"):
+        return "a value was decoded although the stream stopped after 0x%s bytes" % f[-1]
+    return None
+
+
+def rejudge_c07(inp, ko, km):
+    """only hash counts differ: the property is violated if the implementation hashed more
+    than the model (whose count is proved <= one per level)"""
+    if not isinstance(ko, dict):
+        return True
+    for k, v in ko.items():
+        mv = km.get(k)
+        if mv is None or mv == v:
+            continue
+        if "_n" in v and "_n" in mv and v.split("_n")[0] == mv.split("_n")[0]:
+            try:
+                if int(v.split("_n")[1], 16) > int(mv.split("_n")[1], 16):
+                    return True
+            except ValueError:
+                return True
+            continue
+        return True
+    return False
+
+
+HIST_NT = lambda inp, obs: obs.count("=OK") >= 3
 RULES = {
+    "C01": dict(what="hash-tree-root of views built by default / constructors / deserialization / mutation chain, DefaultNode root; both hash configurations; model root vs SSZ spec root"),
+    "C02": dict(what="Serialize bytes, ValueByteLength, deserialize -> bytes / root / value read back through the typed getters"),
+    "C03": dict(what="view Deserialize accept/reject/panic and re-serialization on exhaustive small strings and structure-aware corruptions",
+                nontrivial=lambda inp, obs: obs.startswith("res=OK"),
+                nontrivial_text="the implementation accepted the input (the accepted share is reported in outcome_classes)"),
+    "C04": dict(what="operation histories on views (incl. retained and nested sub-views): step outcomes, root, bytes, lengths, element reads vs TM, HM and the plain-value machine VM", nontrivial=HIST_NT,
+                nontrivial_text="at least three steps of the history succeeded"),
+    "C05": dict(what="histories with snapshots before steps and copies: every snapshot re-derived from the raw node structure after every later step", nontrivial=HIST_NT,
+                nontrivial_text="at least three steps of the history succeeded"),
+    "C06": dict(what="histories with hash-tree-root requests at every subset of positions; every reachable memoised pair re-derived from its children", nontrivial=HIST_NT,
+                nontrivial_text="at least three steps of the history succeeded"),
+    "C07": dict(what="pair-hash invocation counts: second request, single mutations with pre-hashed values, expanding appends at limits 2^20..2^40", nontrivial=HIST_NT,
+                rejudge=rejudge_c07, nontrivial_text="at least three steps of the history succeeded"),
+    "C08": dict(what="tree.Merkleize on (count, limit) grids and every flat HashFn helper through a generic flat value; model root vs SSZ spec root"),
+    "C09": dict(what="flat codec: encoding, ByteLength, decoding into fresh / reused destinations"),
+    "C10": dict(what="flat codec decoding accept/reject/panic and re-encoding on exhaustive small strings and corruptions",
+                nontrivial=lambda inp, obs: obs.startswith("res=OK"),
+                nontrivial_text="the implementation accepted the input"),
+    "C11": dict(what="Getter / Setter(expand) / SummarizeInto on enumerated and random trees: outcome, resulting root, pointer identity of every node (canonical numbering), original tree afterwards",
+                nontrivial=lambda inp, obs: obs.startswith("res=OK"), nontrivial_text="the navigation succeeded"),
+    "C12": dict(what="reads and single mutations on views with 1..3 summarised positions vs the full view (error-or-same)", extra=extra_c12,
+                nontrivial=lambda inp, obs: obs.startswith("summ=OK"), nontrivial_text="the positions could be summarised"),
+    "C13": dict(what="DecodingReader over scheduled / failing / short readers, EncodingWriter over failing writers (view and flat codecs)", extra=extra_c13,
+                nontrivial=lambda inp, obs: True),
+    "C14": dict(what="2..16 goroutines each running a history on its own Copy of a fully hashed ancestor under the race detector; per-goroutine observations vs the sequential model", race=True,
+                nontrivial=HIST_NT, nontrivial_text="at least three steps of the goroutine's history succeeded",
+                trusted=["the Go race detector and memory model (not modelled): data races are detected by go test -race, not proved absent"]),
+    "C15": dict(what="IsFixedByteLength / TypeByteLength / MinByteLength / MaxByteLength vs model and SSZ spec sizes",
+                nontrivial=lambda inp, obs: True),
     "C16": dict(
         what="every Gindex64 / bit-length method on generated 64-bit values; ToGindex64 on an (index, depth) grid",
         nontrivial=lambda inp, obs: True,
         assumptions=["uint64 inputs; gindex 0 is included for the arithmetic helpers (documented as invalid)"]),
+    "C17": dict(what="ReadonlyIter / Iter (3 extra Next calls each) / Get(i) on every kind of series view"),
     "C18": dict(
         what="bitlist/bitvector checks and helpers on byte strings x limits",
         nontrivial=lambda inp, obs: True,
         assumptions=["GetBit/SetBit are called only with in-range indices except in the panic stream"]),
+    "C19": dict(what="MarshalText/JSON, UnmarshalText/JSON of every uint width, hex marshalling and fixed-size hex decoding",
+                nontrivial=lambda inp, obs: True),
+    "C20": dict(what="bytes allocated per decode call (runtime.MemStats.TotalAlloc) by view and flat decoders on hostile and corrupted inputs vs the model's charge and the proved bound", extra=extra_c20,
+                nontrivial=lambda inp, obs: True,
+                trusted=["the Go allocator and runtime.MemStats accounting (not modelled): the measured figure is compared with 4x the model's charge + 16KiB"]),
 }
 
 
@@ -84,6 +203,15 @@ def compare(pid, rule, order, ins, obs, mod, known):
                     spec_diffs.append((k[5:], km[k[5:]], v))
         elif o != m:
             diffs.append(("obs", o, m))
+        extra = rule.get("extra")
+        extra_msg = extra(i, o, m) if extra else None
+        if extra_msg:
+            mism += 1
+            if len(violations) < 25:
+                violations.append(("property", "case %s  %s  =>  %s" % (cid, i[:300], extra_msg),
+                                   dict(kind="property-relation", case=cid, input=i, implementation=o, model=m,
+                                        failing_input=True, note=extra_msg)))
+            continue
         if not diffs and not spec_diffs:
             agree += 1
             continue
